@@ -194,11 +194,14 @@ func (a *GsfaWriter) Push(
 			// if this key has less than 100 values and is not in the top list of keys by flush count, then
 			// it's very likely that this key isn't going to get a lot of values soon
 			if len(values) < 100 && len(values) > 0 && !a.popRank.has(key) {
-				if err := a.flushKVs(linkedlog.KeyToOffsetAndSizeAndBlocktime{
+				// Hand the values to the background writer through the same FIFO channel as the full
+				// batches instead of writing them from here: an older full batch of this key may still be
+				// waiting in the channel (or be held by the background writer), and the pop rank does not
+				// rule that out once purge() has dropped the key. Going through the one FIFO keeps the
+				// records of a key in the order in which their transactions were pushed.
+				a.fullBufferWriterChan <- linkedlog.KeyToOffsetAndSizeAndBlocktime{
 					Key:    key,
 					Values: values,
-				}); err != nil {
-					return err
 				}
 				a.accum.Delete(key)
 			}
